@@ -1140,6 +1140,12 @@ def degenerate_cases(algos=None):
                          routers=[{"name": "xbar"}],
                          connections=[{"src": e, "dst": "xbar"} for e in ("cpu", "dma", "mem")])
                 yield f"degenerate:one-sam-entry:{tag}", c
+                # one window that is the whole address space
+                c = base("whole", nt, algo)
+                c.update(endpoints=[ep(nt, "cpu", 0, role="mgr"), ep(nt, "dma", 0, role="mgr"),
+                                    dict(ep(nt, "mem", 0, role="sbr"), addr_range={"start": 0, "end": 0x1_0000_0000})],
+                         routers=[{"name": "xbar"}], connections=[{"src": e_, "dst": "xbar"} for e_ in ("cpu", "dma", "mem")])
+                yield f"degenerate:whole-space-window:{tag}", c
                 # a window that starts at 0 and one that ends exactly at the top of the address space
                 c = base("edges", nt, algo)
                 c.update(endpoints=[ep(nt, "low", 0), dict(ep(nt, "high", 0), addr_range={"start": 0xFFFF_0000, "end": 0x1_0000_0000})],
